@@ -479,6 +479,11 @@ func (vfs *MemFS) MkdirAll(path string, perm fs.FileMode) error {
 		return &fs.PathError{Op: op, Path: pi.LeftPart(), Err: vfs.err.NotADirectory}
 	}
 
+	if parent == nil || !vfs.isNotExist(err) {
+		// the volume does not exist, or the walk was stopped by something else than a missing directory.
+		return &fs.PathError{Op: op, Path: path, Err: err}
+	}
+
 	parent.mu.Lock()
 	defer parent.mu.Unlock()
 
